@@ -590,6 +590,46 @@ impl Family for Stage9 {
     }
 }
 
+/// CHK5: the white king attacked by a black pawn (either of the two squares), a black slider
+/// anywhere (so that pawn + slider double checks, discovered checks behind the pawn and pins all
+/// occur), one white piece of every kind anywhere, black king anywhere; white to move.
+pub struct Chk5;
+impl Family for Chk5 {
+    fn name(&self) -> String {
+        "CHK5".into()
+    }
+    fn len(&self) -> u64 {
+        64 * 2 * 192 * 256 * 64
+    }
+    fn decode(&self, mut i: u64) -> Option<Pos> {
+        let wk = (i % 64) as u8;
+        i /= 64;
+        let side = if i % 2 == 0 { -1i8 } else { 1 };
+        i /= 2;
+        let s = (i % 192) as usize;
+        i /= 192;
+        let w = (i % 256) as usize;
+        i /= 256;
+        let bk = (i % 64) as u8;
+        // a black pawn attacks towards higher rows: it stands one row above (smaller row) the king
+        let psq = sq_at(file_of(wk) + side, row_of(wk) - 1)?;
+        let mut p = Pos::empty();
+        p.board[wk as usize] = pc(WHITE, KING);
+        for (sq, piece) in [(psq, pc(BLACK, PAWN)), ((s % 64) as u8, pc(BLACK, [ROOK, BISHOP, QUEEN][s / 64])), ((w % 64) as u8, pc(WHITE, [KNIGHT, BISHOP, ROOK, QUEEN][w / 64])), (bk, pc(BLACK, KING))] {
+            if p.board[sq as usize] != EMPTY {
+                return None;
+            }
+            p.board[sq as usize] = piece;
+        }
+        p.stm = WHITE;
+        if p.is_legal_position() {
+            Some(p)
+        } else {
+            None
+        }
+    }
+}
+
 /// wraps a family and yields the colour-flipped twin of every member
 pub struct Flipped<'a>(pub &'a dyn Family);
 impl<'a> Family for Flipped<'a> {
